@@ -82,19 +82,20 @@ func (s *redisSessionStore) Update(ctx context.Context, key string, value *Encry
 	ctx, span := otel.StartSpan(ctx, "RedisSessionStore.Update")
 	defer span.End()
 
-	_, err := s.Read(ctx, key)
-	if err != nil {
-		return err
-	}
-
-	err = metrics.ObserveRedisLatency(metrics.RedisOperationUpdate, func() error {
-		return s.client.Set(ctx, key, value, redis.KeepTTL).Err()
+	// Only update an existing key, and do so in a single command: a read followed by a plain SET re-creates
+	// (without any expiry) a session that was deleted in between, e.g. by a concurrent logout.
+	err := metrics.ObserveRedisLatency(metrics.RedisOperationUpdate, func() error {
+		return s.client.SetArgs(ctx, key, value, redis.SetArgs{Mode: "XX", KeepTTL: true}).Err()
 	})
-	if err != nil {
-		return err
+	if err == nil {
+		return nil
 	}
 
-	return nil
+	if errors.Is(err, redis.Nil) {
+		return fmt.Errorf("%w: %w", ErrNotFound, err)
+	}
+
+	return err
 }
 
 func (s *redisSessionStore) MakeLock(key string) Lock {
